@@ -100,6 +100,8 @@ func C16(r *eng.Run) {
 		C16Write(r)
 	case 3, 4:
 		C16Handshake(r)
+	case 5:
+		C16Control(r)
 	default:
 		C16Read(r)
 	}
